@@ -7,7 +7,7 @@ from props import codec
 FUNK = ['FIX8::MessageBase::extract_element(const char*, unsigned, char*, char*)', 'FIX8::MessageBase::extract_element_fixed_width']
 
 def run(ctx):
-    kf = codec.kfs('C03'); defs = kf_defines(kf)
+    kf = codec.kfs('C03'); defs = kf_defines(kf) + codec.kf_defines_for(ctx, 'C06')     # the fixed-width harness also meets C06's separator finding
     roots = ['vf_extract_element', 'vf_extract_element_fw']
     # the wrappers call the extractors the way decode/decode_group do (no explicit capacity): the verification build scales
     # FIX8_MAX_FLD_LENGTH to the harness capacity, so a capacity-aware extractor (default = FIX8_MAX_FLD_LENGTH) sees the real bound
